@@ -1,11 +1,20 @@
 (* C05 — emitted lines are fixed points of their output template.
    C05_column is the generic one-column theorem (same four facts as C13_column): the line written
    for a value, sent through importer and exporter of the column's own template, comes out byte
-   for byte, newline included. Instances: the ten integer types under numeric, string, auto;
-   bool under boolean. PARTIAL: multi-column rows, sub-rows, hidden columns, undeclared keys, the
-   other lossless pairings and the five process time zones are decided by the fixed-point
-   oracle of the template stream on the real package (every emitted line whose output template
-   is lossless is re-read and re-emitted under the run's TZ); known finding F7 (year outside
+   for byte, newline included (C05_column_upto: the value read back may differ from the value written
+   provided it exports to the same thing). Instances: every one of the 86 typed pairings of the
+   lossless table, on the domains and under the hypotheses listed in the header of props/C13.v
+   (constructors of proved_pairing / proved_pairing_upto in proofs/TemplateLossless.v): the ten integer
+   kinds under string, numeric, auto, binary, timestamp (values that fit int64); bool under boolean,
+   string, auto, binary, and under numeric / timestamp with H_parse_bool_digits; float64 / float32 under
+   binary (every bit pattern), under numeric / string for finite values with H_float_rt, H_float_syn
+   (H_f32_embed), under auto with the premises on json.Marshal's text (H_jfloat_rt); string, json.Number,
+   []byte; time.Time under datetime, string, numeric, timestamp, binary (any nanoseconds: the re-read value
+   is the same second and re-exports to the same text) and under auto (nanoseconds kept).
+   PARTIAL: multi-column rows, sub-rows, hidden columns, undeclared keys, the "none" column, NaN / Inf
+   under string and the five process time zones are decided by the
+   fixed-point oracle of the template stream on the real package (every emitted line whose output
+   template is lossless is re-read and re-emitted under the run's TZ); known finding F7 (year outside
    0..9999) is reported there. *)
 From Coq Require Import ZArith List Bool.
 From JL.std Require Import GoBase GoVal GoJson.
@@ -31,13 +40,37 @@ Proof. exact fixed_point_column. Qed.
 Print Assumptions C05_column.
 
 Theorem C05_proved_pairings : forall (O : oracles) jfloat jother n c f T v e leaf txt,
-  ustr c -> proved_pairing f T v e leaf txt ->
+  ustr c -> proved_pairing O jfloat f T v e leaf txt ->
   exists line,
     bind (create_row O parse_top_rv (S (S (S n))) (tpl1 c f T) (RMap [(c, RS v)]))
          (marshal_row O encode_string jfloat jother (S (S (S n)))) = Ok line
     /\ pipeline O encode_string parse_top_rv jfloat jother (S (S (S n))) (tpl1 c f T) (tpl1 c f T) line = Ok (line ++ [10]).
 Proof. exact fixed_point_proved. Qed.
 Print Assumptions C05_proved_pairings.
+
+Theorem C05_column_upto : forall (O : oracles) jfloat jother n c f T v v' e leaf txt,
+  ustr c -> v <> VNil -> v' <> VNil -> format_eqb f FHidden = false ->
+  To O T v = Ok v -> To O T v' = Ok v' ->
+  export_scalar O f (RS v) = Ok (RS e) -> export_scalar O f (RS v') = Ok (RS e) ->
+  marshal_gval encode_string jfloat jother e = Ok txt ->
+  write_jv leaf = Some txt -> jv_wf leaf ->
+  rv_is_nil (rv_of_jv leaf) = false ->
+  import_scalar O f T (rv_of_jv leaf) = Ok (RS v') ->
+  exists line,
+    bind (create_row O parse_top_rv (S (S (S n))) (tpl1 c f T) (RMap [(c, RS v)]))
+         (marshal_row O encode_string jfloat jother (S (S (S n)))) = Ok line
+    /\ pipeline O encode_string parse_top_rv jfloat jother (S (S (S n))) (tpl1 c f T) (tpl1 c f T) line = Ok (line ++ [10]).
+Proof. exact fixed_point_column_upto. Qed.
+Print Assumptions C05_column_upto.
+
+Theorem C05_proved_pairings_upto : forall (O : oracles) jfloat jother n c f T v v' e leaf txt,
+  ustr c -> proved_pairing_upto O jfloat f T v v' e leaf txt ->
+  exists line,
+    bind (create_row O parse_top_rv (S (S (S n))) (tpl1 c f T) (RMap [(c, RS v)]))
+         (marshal_row O encode_string jfloat jother (S (S (S n)))) = Ok line
+    /\ pipeline O encode_string parse_top_rv jfloat jother (S (S (S n))) (tpl1 c f T) (tpl1 c f T) line = Ok (line ++ [10]).
+Proof. exact fixed_point_proved_upto. Qed.
+Print Assumptions C05_proved_pairings_upto.
 
 Example C05_example : forall O jf jo,
   pipeline O encode_string parse_top_rv jf jo 4 (tpl1 [99] FNumeric (VInt KInt16 0)) (tpl1 [99] FNumeric (VInt KInt16 0))
